@@ -138,6 +138,7 @@ PROPS["C01"] = dict(
              quick=dict(checks=1600, shards=16, timeout=600), thorough=dict(checks=40000, shards=16, timeout=6000)),
         dict(name="TestVF_C01Session", env=dict(VERIF_CASE_LIMIT=300),
              quick=dict(checks=160, shards=32, timeout=600), thorough=dict(checks=4000, shards=32, timeout=6000)),
+        dict(name="TestVF_C01ManyFiles", rapid=False, quick=dict(shards=8, timeout=600), thorough=dict(shards=16, timeout=600)),
     ],
 )
 
